@@ -4,4 +4,4 @@ from vlib.props._packet import packet_obs
 
 def obligations(tier, seed):
     p = packet_obs()
-    return [p[k] for k in ("rows", "header", "header_badpage", "header_timefill", "addr_error", "mot", "pop", "x27", "x2829", "ait", "btt", "mpt", "mpt_ex", "mip", "drcs", "pagelink_any", "lop_parity")]
+    return [p[k] for k in ("rows", "header", "header_badpage", "header_timefill", "addr_error", "mot", "pop", "x27", "ait", "btt", "mpt", "mpt_ex", "mip", "drcs", "pagelink_any", "lop_parity")]
